@@ -407,6 +407,18 @@ def f32_exact(fr: Fraction) -> bool:
 def readable(v, x):
     """('ok', exact value) | ('refuse', class) | ('dc',): the statement does not decide."""
     t = v["type"]
+    if isinstance(x, dt.date):
+        if t == "date":
+            return ("ok", ("d", x.toordinal()))
+        return ("refuse", "not-readable") if t in ("float", "int") or isinstance(t, list) else ("dc",)
+    if isinstance(x, (int, float)) and not isinstance(x, bool) and (t in ("int", "date") or isinstance(t, list)):
+        if isinstance(x, int) or t != "date":
+            try:
+                big = not -2 ** 63 <= int(x) <= 2 ** 63 - 1
+            except (OverflowError, ValueError):
+                big = True
+            if big:
+                return ("refuse", "too-large")
     if isinstance(x, list):
         if t == "str" or len(x) < 2:
             return ("dc",)
@@ -645,6 +657,8 @@ def reference(spec, dp_raw, doc) -> Ref:
         return _reference_vars(ref, spec, vmap, dp, doc)
 
     ed = entity_docs(spec, doc)
+    if short and any(a in doc and b in doc for a, b in zip(singulars, plurals)):
+        ref.skip = "an entity given in the short and in the full form at once"
     pj = ed.get(spec["pp"])
     if not pj or not isinstance(pj, dict):
         ref.refuse.append("no-person")
@@ -830,7 +844,7 @@ def _reference_vars(ref, spec, vmap, dp, doc):
 
 # classes the statement names; the others are refused by the code but not judged when accepted
 HARD = {"unknown-entity", "unknown-variable", "unknown-person", "duplicate-membership", "too-many-holders-of-a-role",
-        "text-for-number", "list-value", "not-readable", "unknown-enum-name", "impossible-date", "unparsable-period",
+        "text-for-number", "list-value", "not-readable", "too-large", "unknown-enum-name", "impossible-date", "unparsable-period",
         "period-mismatch", "unknown-variable-in-axis", "unparsable-period-in-axis"}
 
 SIG_A = "noncanonical-period-key:"                                                  # F-C12a (+ values | refused | masks-refusal)
@@ -1053,7 +1067,7 @@ def random_kind(rng: random.Random, key: str, plural: str):
     for k in range(rng.randint(1, 3)):
         sub = [f"{key}_r{k}_s{j}" for j in range(rng.choice([0, 0, 2, 3]))]
         roles.append(T.role(f"{key}_r{k}", plural=rng.choice([None, f"{key}_r{k}s"]),
-                            max=None if sub else rng.choice([None, None, 1, 2, 3]), sub=sub))
+                            max=rng.choice([None, None, 1, len(sub) + 1]) if sub else rng.choice([None, None, 1, 2, 3]), sub=sub))
     return T.group(key, plural, roles)
 
 
@@ -1069,8 +1083,10 @@ def gen_spec(rng: random.Random):
         kinds = [T.FAMILY]
     elif pick < 0.85:
         kinds = [random_kind(rng, "team", "teams"), rng.choice([T.HOUSEHOLD, T.FAMILY])]
-    elif pick < 0.95:
+    elif pick < 0.90:
         kinds = [random_kind(rng, "team", "teams")]
+    elif pick < 0.95:
+        kinds = [T.HOUSEHOLD, random_kind(rng, "team", "teams"), T.FAMILY]
     else:
         kinds = []
     variables = T.all_types_variables("person", "p_", rng.choice(ENUMS))
@@ -1133,7 +1149,7 @@ def native_value(rng, v):
         return rng.choice(WORDS)
     y, m = rng.choice([1900, 1980, 1999, 2000, 2016, 2024, 2100]), rng.randint(1, 12)
     d = rng.randint(1, 28) if rng.random() < 0.7 else (dt.date(y + (m == 12), m % 12 + 1, 1) - dt.timedelta(days=1)).day
-    return f"{y:04d}-{m:02d}-{d:02d}"
+    return dt.date(y, m, d) if rng.random() < 0.3 else f"{y:04d}-{m:02d}-{d:02d}"       # YAML gives date objects
 
 
 def convertible_value(rng, v):
@@ -1144,11 +1160,12 @@ def convertible_value(rng, v):
     if t == "float":
         return rng.choice([True, False, rng.choice(EXPRS)])
     if t == "int":
-        return rng.choice([2.5, -0.75, 7.0, True, rng.choice(EXPRS)])
+        return rng.choice([2.5, -0.75, 7.0, True, rng.choice(EXPRS), 2 ** 31 - 1, -2 ** 31, 2 ** 31, -2 ** 31 - 1, 2 ** 32 + 5,
+                           2 ** 63 - 1, -2 ** 63, 2147483648.0, float(2 ** 62)])
     if t == "bool":
         return rng.choice([0, 1, 2, 0.0, 2.5, "yes", ""])
     if t == "date":
-        return rng.choice(["2018-05", "2018", 5, 0])
+        return rng.choice(["2018-05", "2018", 5, 0, -3, 32768, -700000])
     return native_value(rng, v)
 
 
@@ -1267,8 +1284,14 @@ def gen_groups(rng, g, pids, avoid, all_members=False):
             continue
         rk = rng.choice(opts)
         groups[gid].setdefault(rk, []).append(pid)
+    for gid in gids:                                      # a role listed explicitly with nobody
+        for r in g["roles"]:
+            if T.role_doc_key(r) not in groups[gid] and rng.random() < 0.12:
+                groups[gid][T.role_doc_key(r)] = []
     for gid in gids:                                      # shorthand: a single holder given bare
         for rk, lst in list(groups[gid].items()):
+            if not lst:
+                continue
             if len(lst) == 1 and rng.random() < 0.3:
                 groups[gid][rk] = lst[0]
             elif rng.random() < 0.1:
@@ -1292,7 +1315,9 @@ def gen_axes(rng, spec, counts, dp):
         for _ in range(rng.randint(1, 2)):
             v = rng.choice(cands)
             a = {"name": v["name"], "count": cnt}
-            step = rng.randint(0, 40) if v["type"] == "int" else rng.randint(0, 400) / 4
+            step = rng.randint(-20, 40) if v["type"] == "int" else rng.randint(-200, 400) / 4
+            if rng.random() < 0.1:
+                step = 0
             mn = rng.randint(-10, 100) if v["type"] == "int" or rng.random() < 0.5 else rng.randint(-40, 400) / 4
             a["min"] = mn
             a["max"] = mn + step * (cnt - 1) if cnt > 1 else mn + step
@@ -1301,6 +1326,8 @@ def gen_axes(rng, spec, counts, dp):
             idx = rng.randrange(counts[ek])
             if idx or rng.random() < 0.3:
                 a["index"] = idx
+            if dim and rng.random() < 0.15:
+                a["count"] = cnt + rng.randint(1, 2)              # only the first axis' count is read
             canon = rng.choice(CANON[v["unit"]])
             if dp and v["unit"] == "month" and rng.random() < 0.5:
                 canon = canon_text(denote(dp))
@@ -1344,6 +1371,8 @@ def gen_entities_doc(rng, spec, want_axes=False, short=False):
             gv = instance_values(rng, spec, g["key"], 1, dp, density=0.15)[0]
             doc[g["key"]] = shuffled(rng, {**inst, **gv})
             counts[g["key"]] = 1
+            if rng.random() < 0.05:                           # the same kind in the full form too: the short one wins
+                doc[g["plural"]] = gen_groups(rng, g, pids, ptexts)
             continue
         groups = gen_groups(rng, g, pids, ptexts)
         listed = {str(p) for inst in groups.values() for lst in inst.values() for p in (lst if isinstance(lst, list) else [lst])}
@@ -1391,7 +1420,8 @@ def gen_vars_doc(rng, spec):
 
 MUTATIONS = ["unknown-entity", "unknown-variable", "unknown-person", "duplicate-membership", "too-many",
              "text-for-number", "list-value", "unknown-enum", "impossible-date", "bad-period", "period-mismatch",
-             "dict-value", "no-person", "wrong-type"]
+             "dict-value", "no-person", "wrong-type", "too-large", "date-for-number", "foreign-variable",
+             "undated-no-default", "role-wrong-type"]
 BAD_KEYS = ["2018-13", "month:2018", "abc", "2018-02-30", "month:2018-01:x", "", "day:2018-01", "week:2018", "2018-W54"]
 
 
@@ -1485,6 +1515,36 @@ def mutate(rng, spec, doc, cls):
     if cls == "list-value":
         return put(lambda v: v["type"] in ("float", "int", "bool", "date") or isinstance(v["type"], list),
                    lambda v, k: {k: [native_value(rng, v) for _ in range(rng.randint(2, 3))]})
+    if cls == "too-large":
+        return put(lambda v: v["type"] in ("int", "date") or isinstance(v["type"], list),
+                   lambda v, k: {k: rng.choice([2 ** 63, -2 ** 63 - 1, 2 ** 64, 10 ** 30] +
+                                               ([float(2 ** 63), 1e19, -1e40] if v["type"] != "date" else []))})
+    if cls == "date-for-number":
+        return put(lambda v: v["type"] in ("int", "float") or isinstance(v["type"], list),
+                   lambda v, k: {k: dt.date(1980, rng.randint(1, 12), 3)})
+    if cls == "foreign-variable":
+        ek, _, _, inst = rng.choice(insts)
+        cands = [v for v in spec["vars"] if v["entity"] != ek and v["rule"] == "absent"]
+        if not cands:
+            return None
+        v = rng.choice(cands)
+        inst[v["name"]] = {spell(rng, v["unit"], rng.choice(CANON[v["unit"]])): native_value(rng, v)}
+        return doc
+    if cls == "undated-no-default":
+        ek, _, _, inst = rng.choice(insts)
+        cands = vars_of(ek, lambda v: v["rule"] == "absent")
+        v = rng.choice(cands)
+        x = native_value(rng, v)
+        inst[v["name"]] = x if not isinstance(x, (dict, list)) else 1
+        return ("nodp", doc)
+    if cls == "role-wrong-type":
+        kinds = [g for g in spec["groups"] if isinstance(doc.get(g["plural"]), dict) and doc[g["plural"]]]
+        if not kinds:
+            return None
+        g = rng.choice(kinds)
+        inst = doc[g["plural"]][rng.choice(list(doc[g["plural"]]))]
+        inst[T.role_doc_key(rng.choice(g["roles"]))] = rng.choice([None, {"a": 1}, 2.5, [["nested"]], [None], [2.5]])
+        return doc
     if cls == "dict-value":
         return put(lambda v: v["type"] in ("float", "int", "date") or isinstance(v["type"], list),
                    lambda v, k: {k: {"value": 1}})
@@ -1692,6 +1752,12 @@ def generate(rng: random.Random, tier: str):
             r = rng.random()
             if r < 0.13:
                 dp, doc = gen_vars_doc(rng, spec)
+                if dp is None and doc and rng.random() < 0.08:
+                    k = rng.choice(list(doc))                       # undated value without default period
+                    if isinstance(doc[k], dict) and doc[k]:
+                        doc[k] = next(iter(doc[k].values()))
+                        out.append(mk_case(spec, dp, doc, tags=("malformed", "shape:vars", "mut:undated-no-default")))
+                        continue
                 out.append(mk_case(spec, dp, doc, tags=("valid", "shape:vars")))
             elif r < 0.26:
                 dp, doc = gen_entities_doc(rng, spec, short=True, want_axes=rng.random() < 0.25 and bool(spec["groups"]))
@@ -1699,6 +1765,11 @@ def generate(rng: random.Random, tier: str):
             elif r < 0.44 and spec["groups"]:
                 dp, doc = gen_entities_doc(rng, spec, want_axes=True)
                 tag = "axes:none" if "axes" not in doc else ("axes:perpendicular" if len(doc["axes"]) > 1 else "axes:parallel")
+                if "axes" in doc and rng.random() < 0.06:
+                    # axes need every group kind: an omitted kind is a situation error
+                    del doc[rng.choice(spec["groups"])["plural"]]
+                    out.append(mk_case(spec, dp, doc, tags=("malformed", "axes:missing-kind")))
+                    continue
                 out.append(mk_case(spec, dp, doc, tags=("valid", "shape:full", tag)))
             elif r < 0.74:
                 dp, doc = gen_entities_doc(rng, spec)
@@ -1707,6 +1778,8 @@ def generate(rng: random.Random, tier: str):
                 dp, doc = gen_entities_doc(rng, spec, want_axes=rng.random() < 0.1 and bool(spec["groups"]))
                 cls = rng.choice(MUTATIONS)
                 m = mutate(rng, spec, doc, cls)
+                if isinstance(m, tuple):
+                    dp, m = None, m[1]
                 if m is not None:
                     out.append(mk_case(spec, dp, m, tags=("malformed", "mut:" + cls)))
             else:
@@ -1715,6 +1788,8 @@ def generate(rng: random.Random, tier: str):
                 plural_part = {k: x for k, x in doc.items() if not is_short_form(spec, {k: x})}
                 cls = rng.choice([c for c in MUTATIONS if c not in ("unknown-entity", "no-person")])
                 m = mutate(rng, spec, plural_part, cls) if spec["pp"] in plural_part else None
+                if isinstance(m, tuple):
+                    dp, m = None, m[1]
                 if m is not None:
                     out.append(mk_case(spec, dp, {**doc, **m}, tags=("malformed", "shape:short", "mut:" + cls)))
     return out
@@ -1729,6 +1804,8 @@ def modelled(v, x) -> bool:
     t = v["type"]
     if x is None:
         return True
+    if isinstance(x, dt.date):
+        return t != "str"
     plain = isinstance(x, str) and x.isascii() and x.isalpha() and x.lower() not in _SPECIAL_WORDS
     if isinstance(t, list):
         if isinstance(x, str) or isinstance(x, dict):
